@@ -39,6 +39,23 @@ def run(ctx):
     for n in ([30000, 45000, 60000] if ctx.quick() else [30000, 45000, 60000, 100000, 150000, 200000]):
         doc, seps = D.dense_document(rng, n)
         big.append((doc, D.render(rng, doc, seps=seps, trailing=1)))
+    # beyond 1 MiB, a paragraph separator (or a line end) exactly across every multiple of 4096 characters
+    for feat in ('sep-straddle',):
+        doc = []
+
+        def unit(i):
+            p = [['Package', 'p%d' % i, []], ['Description', 'd %d' % i, [' more %d' % i]]]
+            doc.append(p)
+            return ['Package: p%d' % i, 'Description: d %d' % i, ' more %d' % i]
+        text = G.aligned_text(rng, 1150000, feat, unit=unit, gaps=False)
+        # the generator pads the last line of every paragraph and separates paragraphs as the feature says
+        lines = [l for l in text.split('\n')]
+        k = 0
+        for i, L in enumerate(lines):
+            if L.startswith(' more '):
+                doc[k][1][2] = [L]
+                k += 1
+        big.append((doc, text))
     for d in docs[4:]:
         if rng.random() < .01:
             d[0] = [f for f in d[0] if f[0].lower() != 'content-type'] + \
